@@ -348,6 +348,10 @@ def parse_data_ints(il):
 
 EXTRA_CLI = [
     # (source, expected list of (name, value)) hand-written disambiguation cases
+    # prototype scopes nested in a parameter list, a struct member or a type name: later parameters see earlier ones
+    ('double m; int n0;\nvoid (*cb)(short m, char (*row)[sizeof m]);\nstruct H { int (*cmp)(int n, int (*a)[n], char (*b)[sizeof n]); long (*get)(char m, char (*r)[sizeof m + 1]); };\nvoid reg(int (*f)(char m, int (*p)[sizeof m]), int k);\nstatic int chk_a = _Generic(cb, void (*)(short, char (*)[2]): 1, void (*)(short, char (*)[8]): 2, default: 0);\nstatic int chk_b = _Generic(((struct H *)0)->get, long (*)(char, char (*)[2]): 1, long (*)(char, char (*)[9]): 2, default: 0);\nstatic int chk_c = _Generic((void (*)(char m, char (*)[sizeof m]))0, void (*)(char, char (*)[1]): 1, void (*)(char, char (*)[8]): 2, default: 0);\nstatic int chk_d = _Generic(reg, void (*)(int (*)(char, int (*)[1]), int): 1, default: 0);\nstatic int chk_g = sizeof m;\n', [('chk_a', 1), ('chk_b', 1), ('chk_c', 1), ('chk_d', 1), ('chk_g', 8)]),
+    # a tag redeclared in an inner scope names a different type even when tag, size and alignment agree
+    ('struct S { int a; } g; union U { int i; float f; } gu;\nvoid f(void)\n{\n\tstruct S { float a; } l; union U { unsigned i; float f; } lu;\n\tstatic int chk_a = _Generic(&g, struct S *: 1, default: 2);\n\tstatic int chk_b = __builtin_types_compatible_p(__typeof__(g), struct S);\n\tstatic int chk_c = _Generic(&l, struct S *: 1, default: 2);\n\tstatic int chk_d = _Generic(&gu, union U *: 1, default: 2);\n\tstatic int chk_e = __builtin_types_compatible_p(__typeof__(lu), union U);\n\t{ struct S; static int chk_f = _Generic((struct S *)0, __typeof__(&l): 1, __typeof__(&g): 3, default: 2); }\n}\n', [('chk_a', 2), ('chk_b', 0), ('chk_c', 1), ('chk_d', 2), ('chk_e', 1), ('chk_f', 2)]),
     ('typedef int T; enum { A = sizeof(T) }; void f(void) { char T[7]; static int chk_a = sizeof(T); { typedef long T; static int chk_b = sizeof(T); } static int chk_c = sizeof T; }\n',
      [('chk_a', 7), ('chk_b', 8), ('chk_c', 7)]),
     ('struct s { char a[3]; }; enum { s = 9 }; static int chk_a = s; static int chk_b = sizeof(struct s);\n'
